@@ -58,7 +58,47 @@ def _xlsx_row_collision(p, v):
     return False
 
 
+EXISTENTIAL = {"TasksContiguous", "UnorderedTaskGroup", "OrderedTaskGroup"}
+
+
+def _negated_existential_operand(p, v):
+    """The failing clause names a Not / Xor constraint one of whose operands is (or contains) a
+    constraint whose encoding introduces auxiliary variables (sorted times of TasksContiguous, the
+    window of a task group)."""
+    cons = p["cons"]
+    byname = {c["name"]: c for c in cons}
+
+    def ops(c):
+        out = []
+        for k in ("x", "y"):
+            if k in c and c[k]["t"] == "con":
+                out.append(cons[c[k]["i"] - 1])
+        for k in ("xs", "ys"):
+            for o in c.get(k, []):
+                if o["t"] == "con":
+                    out.append(cons[o["i"] - 1])
+        return out
+
+    def has(c):
+        return c["cls"] in EXISTENTIAL or any(has(o) for o in ops(c))
+
+    def negated(c, under_negation):
+        if c["cls"] in EXISTENTIAL:
+            return under_negation
+        if c["cls"] in ("Not", "Xor"):
+            return any(has(o) for o in ops(c))
+        return any(negated(o, under_negation) for o in ops(c))
+
+    for cl in v.get("clauses", []):
+        if "G_constraint:" in cl:
+            c = byname.get(cl.split("G_constraint:")[1])
+            if c is not None and negated(c, False):
+                return True
+    return False
+
+
 PREDICATES = {
+    "negated_existential_operand": _negated_existential_operand,
     "xlsx_row_collision": _xlsx_row_collision,
     # name -> function(problem, violation) -> bool
     "lost:interrupted_variable_task_longer_than_max": _interrupted_longer_than_max,
